@@ -154,7 +154,8 @@ def propagate_oracle(ctx, case, steps, ctor_err):
             if exp and len(d.get('mapping', [])) == 1:
                 for a, v in exp.items():
                     if d.get(a) != v:
-                        ctx.fail(suites.slim(case), f'atom {n} (copy of {fname}:{tk}): {a}={d.get(a)!r}, template says {v!r}')
+                        ctx.fail(suites.slim(case), f'atom {n} (copy of {fname}:{tk}): {a}={d.get(a)!r}, template says {v!r}',
+                                 finding=classify(case))
 
 
 def anno_resolve_case(rng):
@@ -206,6 +207,45 @@ def anno_resolve_case(rng):
             'atom_expect': {'U': atom_expect}, 'all_atom': True}
 
 
+def anno_cg_case(rng):
+    """annotations on the nodes of a coarse fragment (documented reserved symbols of any coarse resolution: q, w)"""
+    text = '[$]'
+    atom_expect = {}
+    uses_q_or_positional = False
+    for j, name in enumerate(['X', 'Y']):
+        q = rng.choice([None, None, '1', '-0.5'])
+        w = rng.choice([None, '2', '0.25'])
+        free = rng.choice([None, ('tag', 't%d' % j)])
+        ent, exp = [], {'weight': 1.0, 'charge': 0.0, 'atomname': name}
+        if q is not None and rng.random() < 0.4:
+            ent.append(q); exp['charge'] = float(q)
+            uses_q_or_positional = True
+            if w is not None:
+                ent.append(w); exp['weight'] = float(w)
+        else:
+            kws = []
+            if q is not None:
+                kws.append('q=' + q); exp['charge'] = float(q)
+                uses_q_or_positional = True
+            if w is not None:
+                kws.append('w=' + w); exp['weight'] = float(w)
+            rng.shuffle(kws)
+            ent += kws
+        if free:
+            ent.append('%s=%s' % free); exp[free[0]] = free[1]
+        text += '[#%s]' % ';'.join([name] + ent)
+        atom_expect[str(j)] = exp
+    text += '[$]'
+    n = rng.randint(1, 3)
+    return {'kind': 'anno-resolve', 's': '{' + '[#U]' * n + '}.{#U=' + text + '}', 'base_expect': [{'fragname': 'U'}] * n,
+            'atom_expect': {'U': atom_expect}, 'all_atom': False, 'coarse_q': uses_q_or_positional}
+
+
+def classify(case):
+    """S3: a node of a coarse fragment that writes the charge (keyword q or positionally)"""
+    return 'S3' if case.get('coarse_q') else None
+
+
 def run(ctx):
     rng = ctx.rng('anno')
     for _ in range(ctx.budget(2000, 40000)):
@@ -218,10 +258,14 @@ def run(ctx):
         metamorphic(ctx, rng)
     for _ in range(ctx.budget(150, 3000)):
         suites.run_resolve_case(ctx, 'anno-resolve', anno_resolve_case(rng), oracle=propagate_oracle)
+    for _ in range(ctx.budget(100, 2000)):
+        case = anno_cg_case(rng)
+        suites.run_resolve_case(ctx, 'anno-resolve-coarse', case, oracle=propagate_oracle)
+        ctx.feature('coarse-fragment-annotation' + (':charge' if case['coarse_q'] else ''))
 
 
 def corpus_case(ctx, payload):
-    pass
+    suites.run_resolve_case(ctx, 'corpus', payload['case'], oracle=propagate_oracle)
 
 
 def replay(payload):
@@ -240,4 +284,12 @@ def replay(payload):
 
 
 def finding_still_fails(f):
-    return False
+    import json, os, check
+    path = os.path.join(lib.VERIF, f.get('witness', ''))
+    if not os.path.exists(path):
+        return None
+    with open(path) as fh:
+        payload = json.load(fh)
+    ctx = check.Ctx(PROP, 'quick', 0, oracle_only=True)
+    suites.run_resolve_case(ctx, 'finding', payload['case'], oracle=propagate_oracle, compare=False)
+    return bool(ctx.failures)
